@@ -54,14 +54,21 @@ def refRevDeriv (B : Backend) (f : F) (x dy : L) : Res (L × L) := do
   let g := cols.map (fun col => (List.zipWith (fun d o => (d * o.2) % W) dy col).foldl (fun a b => (a + b) % W) 0)
   pure (base.map (·.1), g)
 
+/-- the Var test signature's result type of a binary operator (harness: `impl HasAdd/HasMul/… for Op`) -/
+def binResLabel (o la lb : Nat) : Nat :=
+  if o == 0 || o == 1 then max la lb
+  else if o == 6 then lb
+  else if o == 7 then (la + 2 * lb) % 3
+  else la
+
 /-- translate the wire form of a Var program into `VarIns`, computing the result labels the
-    operator overloads choose (binary/unary operators: the label of the LEFT operand) -/
+    test signature assigns (binary operators: `binResLabel` of BOTH operand labels; unary: the operand's) -/
 def toVarIns (labels : List Nat) : List Sx → Option (List VarB.VarIns)
   | [] => some []
   | ins :: rest =>
     match ins with
     | .l [.s "bin", .n o, .n a, .n b] =>
-      let rl := labels.getD a 0
+      let rl := binResLabel o (labels.getD a 0) (labels.getD b 0)
       (toVarIns (labels ++ [rl]) rest).map (VarB.VarIns.op o [a, b] [rl] :: ·)
     | .l [.s "un", .n o, .n a] =>
       let rl := labels.getD a 0
